@@ -142,6 +142,13 @@ PROPS["C05"] = {
           ["SrtpContext::unprotect_rtcp", "SrtpContext::auth_tag_rtcp_into", "constant_time_eq"],
           "Err => (roc,last_seq,rtcp_index) unchanged; Ok => tag == MAC(k, packet[..len-10])[..10], output = packet minus index and tag, index advances only to the authenticated value",
           bound="packet = 22 bytes (8 header + 0 body + 4 index + 10 tag), symbolic content and context state, one concrete auth key; " + HM, timeout=600),
+        K("unprotect_rtcp AES_CM_128_HMAC_SHA1_32: frame + full 80-bit tag (22 B)", "c05_unprotect_rtcp_sha32_22_fixedkey", "quick", "bounded",
+          ["SrtpContext::unprotect_rtcp", "SrtpContext::auth_tag_rtcp_into", "constant_time_eq"],
+          "same contract under the _32 profile: ALL 10 bytes of the SRTCP tag (RFC 5764 4.1.2) are verified, not just the 4 bytes of the SRTP tag length",
+          bound="packet = 22 bytes (8 header + 0 body + 4 index + 10 tag), one concrete auth key; " + HM, timeout=600),
+        K("unprotect_rtcp AES_CM_128_HMAC_SHA1_80: frame + tag (22 B)", "c05_unprotect_rtcp_sha80_22_fixedkey", "thorough", "bounded",
+          ["SrtpContext::unprotect_rtcp", "SrtpContext::auth_tag_rtcp_into", "constant_time_eq"],
+          "same contract under the _80 profile", bound="packet = 22 bytes, one concrete auth key; " + HM, timeout=600),
         K("unprotect_rtcp HMAC-80: frame + tag over all bytes (26 B, any key)", "c05_unprotect_rtcp_hmac80_26_anykey", "thorough", "bounded",
           ["SrtpContext::unprotect_rtcp", "SrtpContext::auth_tag_rtcp_into", "constant_time_eq"],
           "same contract, symbolic 20-byte auth key",
